@@ -926,6 +926,25 @@ pub fn shrink_text(text: &str, classify: &dyn Fn(&str) -> Option<String>, kind: 
                 }
             }
         }
+        // an operator replaced by the canonical binary operator
+        for i in 0..toks.len() {
+            let t = toks[i].get_token_type();
+            let is_plain = canonical_token(&toks[i]).is_some()
+                || matches!(t, TokenType::StartGroup | TokenType::EndGroup | TokenType::StartExpression | TokenType::EndExpression | TokenType::StartSideEffect | TokenType::EndSideEffect | TokenType::PlusSign);
+            if !is_plain {
+                if budget == 0 {
+                    break 'tok;
+                }
+                budget -= 1;
+                let mut cand = texts.clone();
+                cand[i] = "+".to_string();
+                let s = cand.concat();
+                if s != cur_text && classify(&s).as_deref() == Some(kind) {
+                    cur_text = s;
+                    continue 'tok;
+                }
+            }
+        }
         for i in 0..toks.len() {
             if let Some(c) = canonical_token(&toks[i]) {
                 if texts[i] != c {
